@@ -44,9 +44,10 @@ def handleC04 (toks : List String) : String :=
     | some e, some n, some bx, some us =>
       match M3.ofList? (bx.take 9), V3.ofList? (bx.drop 9), M3.ofList? us, parseAtoms e n (rest.drop 21) with
       | some v, some o, some U, some atoms =>
-        match rotateRaw Rat.floor ⟨v, o⟩ U atoms with
-        | some r => showResult r
-        | none => err "value"
+        -- both refusals of the code (planar vectors, "Filtering failed") are ValueError
+        match rotateChecked Rat.floor ⟨v, o⟩ U atoms with
+        | .ok r => showResult r
+        | .error _ => err "value"
       | _, _, _, _ => err "format"
     | _, _, _, _ => err "format"
   | _ => err "op"
